@@ -55,7 +55,6 @@ impl HeaderValue {
     pub fn clone(&self) -> (r: HeaderValue) ensures r@ == self@ { unimplemented!() }
 }
 // things that own bytes and can become a header value (bytes::Bytes, String, BytesMut)
-pub trait HasBytes { spec fn bytes_view(&self) -> Seq<u8>; }
 
 // keys accepted by HeaderMap::{get,insert,remove,..}: &str, HeaderName, &HeaderName  (http's AsHeaderName / IntoHeaderName)
 pub trait AsHeaderName { spec fn hname(&self) -> Seq<char>; }
